@@ -40,8 +40,32 @@ def three_way(pid, quirk, cases, proj, what):
 def c16(tier, rng, seed):
     return three_way('C16', 'q16', P.radio_cases(rng, tier), {'C16'}, 'radio')
 
+def merge(r, r2):
+    r['violations'] += r2['violations']; r['evaluations'] += r2['evaluations']; r['nontrivial'] |= r2['nontrivial']
+    r['known'].update(r2['known']); r['batches'].update(r2['batches']); r['samples'] += r2['samples']
+    return r
+
+def swept_three_way(pid, quirk, sweeps, proj, what):
+    """two-byte sweeps: the implementation's digest must equal the as-is model's (then every line
+    behaves as recorded); a sweep whose digests differ is expanded and judged line by line"""
+    from . import sweep
+    io = c.run_impl(sweeps, 'std', 'debug'); ma = c.run_model(sweeps, 'std', 'asis')
+    r = {'violations': [], 'evaluations': 65536 * len(sweeps), 'nontrivial': set(sweeps), 'known': {},
+         'batches': {what: {'cases': len(sweeps), 'swept_lines': 65536 * len(sweeps), 'builds': ['std/debug'], 'three_way': 'digest vs as-is model'}},
+         'samples': [{'batch': what, 'case': sweeps[0][:300]}]}
+    listed = _known(pid)
+    if listed: r['known'][listed[0]['id']] = listed[0]['what']     # the as-is model carries the recorded behaviour on these lines
+    for i, sc in enumerate(sweeps):
+        if io[i] == ma[i] and io[i].startswith(('A ', 'B ')): continue
+        r2 = three_way(pid, quirk, sweep.expand(sc), proj, what + '/expanded')
+        r['violations'] += r2['violations']
+    return r
+
 def c19(tier, rng, seed):
-    return three_way('C19', 'q19', P.sentence_field_cases(rng, tier), {'C19'}, 'sentence-fields')
+    r = three_way('C19', 'q19', P.sentence_field_cases(rng, tier), {'C19'}, 'sentence-fields')
+    merge(r, three_way('C19', 'q19', P.message_type_cases(rng, tier), {'C19'}, 'first-byte x length x fill x shape'))
+    merge(r, swept_three_way('C19', 'q19', P.message_type_sweeps(rng, tier), {'C19'}, 'first-byte-sweeps'))
+    return r
 
 def replay_three_way(rp):
     pid, cases, proj = rp['property'], rp['cases'], set(rp['proj'])
